@@ -228,7 +228,24 @@ class ConcreteWorld(_World):
     def valid(self, t):
         used = specbdd._consts(t)
         qs = [self.z(b) for b in self.bdd.vars if b in used]
-        return z3.ForAll(qs, t) if qs else t
+        from ovc import spec as _spec
+        return _spec.forall(qs, t)
+
+    def tt(self, u, bits):
+        """Set of value tuples over `bits` at which the real BDD `u` is true."""
+        bits = list(bits)
+        extra = set(self.bdd.support(u)) - set(bits)
+        assert not extra, extra
+        out = set()
+        if not bits:
+            return {()} if u == self.bdd.true else set()
+        for d in self.bdd.pick_iter(u, care_vars=bits):
+            out.add(tuple(bool(d[b]) for b in bits))
+        return out
+
+    def fail(self, name, witness):
+        self.checked.append(name)
+        self.failed.append(dict(name=name, witness=witness))
 
     def oblige(self, name, goal, hyps=(), kind='post'):
         if isinstance(goal, eng.SymBool):
